@@ -46,6 +46,26 @@ def gen_case(rng: Rng, i: int, tier: str):
         for k in range(rl.pick([520, 600])):
             seq.append({"op": "reset"})
             seq.append({"op": "extract", "targets": [names[k % len(names)]], "recursive": False, "as": "list", "sink": "factory"})
+    rr = rng.sub("ref")
+    if rr.chance(0.2):
+        # an archive of the reference writer (data away from offset 0, packed-stream CRCs, folder-level CRCs, several folders per
+        # "session"): the session state that calls leave behind is computed from fields py7zr's own archives keep at zero
+        from props import c06
+
+        for attempt in range(10):
+            c = c06.gen_case(rng.sub("ref%d" % attempt), 10 ** 6, tier)
+            if "members" not in c or not c["members"] or any(m["kind"] == "symlink" for m in c["members"]):
+                continue
+            if not all(rsess._fs_safe_name(m["name"]) and "\\" not in m["name"] for m in c["members"]) or not rsess._names_ok([m["name"] for m in c["members"]]):
+                continue
+            c["layout"]["packpos"] = rr.pick([1, 7, 64, 96, c["layout"].get("packpos", 0)])
+            c["layout"]["packcrc"] = rr.chance(0.6)
+            stub = [rw.Mem(m["name"], b"", "file", None, None) for m in c["members"]]
+            seq2 = rsess.gen_sequence(rr, stub, maxlen=8 if tier == "thorough" else 5)
+            return {"ref": {"members": c["members"], "layout": c["layout"]}, "seq": seq2, "open": rr.pick(["path", "stream", "anon"]),
+                    "end": rr.wpick([(3, "close"), (2, "ctx"), (2, "exception")]),
+                    "read": {"block": rr.pick([16, 4096, 32768, 1048576]), "chunk": rr.pick([17, 4096, 128000000]), "bufsize": rr.pick([16, 512, 8192])},
+                    "exc_at": rr.randint(0, 3)}
     return {"archive": arc, "seq": seq, "open": r.pick(["path", "stream", "anon"]), "end": r.wpick([(3, "close"), (2, "ctx"), (2, "exception")]),
             "read": {"block": r.pick([16, 4096, 32768, 1048576]), "chunk": r.pick([17, 4096, 128000000]), "bufsize": r.pick([16, 512, 8192])},
             "exc_at": r.randint(0, 3)}
@@ -70,7 +90,7 @@ class _Boom(Exception):
 
 def run_case(case):
     res = {"evals": 0, "violations": [], "faults": {}, "probes": {}, "rejected": {}, "classes": {}, "sigs": [], "sim_steps": 0, "extra": {}}
-    built = rsess.build_archive(case["archive"])
+    built = rsess.build_from_ref(case["ref"]) if "ref" in case else rsess.build_archive(case["archive"])
     if built.rejected or built.error is not None or built.image is None:
         res["extra"]["archive_skipped"] = 1
         res["digest"] = digest_of(["skipped", repr(built.error)[:80]])
@@ -80,7 +100,9 @@ def run_case(case):
     os.makedirs(scratch)
     outdir = os.path.join(scratch, "out")
     cls = {"open": case["open"], "multi": built.nfolders > 1, "encrypted": built.password is not None}
-    cls.update(gen.dep_flags([s.get("chain") for s in case["archive"]["sessions"]], case["read"]["chunk"], case["read"]["block"]))
+    cls.update(case_class(case))
+    if "ref" in case:
+        cls["source"] = "ref7z"
     before = hashlib.sha256(built.image).hexdigest()
     log = []
 
@@ -194,7 +216,7 @@ def shrink_candidates(case):
         c = copy.deepcopy(case)
         del c["seq"][i]
         yield c
-    arc = case["archive"]
+    arc = case.get("archive") or {"sessions": []}
     if len(arc["sessions"]) > 1:
         c = copy.deepcopy(case)
         c["archive"]["sessions"].pop()
@@ -220,4 +242,6 @@ def shrink_candidates(case):
 
 
 def case_class(case):
+    if "ref" in case:
+        return gen.dep_flags([[{"id": f["id"]} for f in fo["chain"]] for fo in case["ref"]["layout"]["folders"]], case["read"]["chunk"], case["read"]["block"])
     return gen.dep_flags([s.get("chain") for s in case["archive"]["sessions"]], case["read"]["chunk"], case["read"]["block"])
